@@ -14,6 +14,7 @@ package main
 import (
 	"bytes"
 	"fmt"
+	"io"
 	"os"
 	"path/filepath"
 	"runtime"
@@ -28,6 +29,7 @@ import (
 	"github.com/thought-machine/please/src/cli"
 	"github.com/thought-machine/please/src/core"
 	"github.com/thought-machine/please/src/fs"
+	logging "gopkg.in/op/go-logging.v1"
 )
 
 // ------------------------------------------------------------------------------------------- descriptions
@@ -560,14 +562,19 @@ func inProcess(c *lib.Ctx) {
 	cfgDir = filepath.Join(c.Out, "c10cfg")
 	must(os.MkdirAll(cfgDir, 0o755))
 	defer os.RemoveAll(cfgDir)
+	logging.SetBackend(logging.NewLogBackend(io.Discard, "", 0))
 	state = core.NewDefaultBuildState()
 
-	n := c.Scale(260, 6000)
+	n := c.Scale(200, 6000)
 	for i := 0; i < n; i++ {
 		r := c.Rng.Fork()
 		cs, ts, cl := genCfg(r), genTgt(r), genCaller(r)
 		allowed := listed(cs, ts)
-		o := observe(cs, ts, cl, 6)
+		reps := 6
+		if crossRef(ts) {
+			reps = 24
+		}
+		o := observe(cs, ts, cl, reps)
 		c.HistN("listed_vars", len(allowed))
 		c.HistN("target_env_entries", len(ts.Env))
 		js := map[string]any{"cfg": cs, "target": ts, "caller": cl}
@@ -607,7 +614,7 @@ func inProcess(c *lib.Ctx) {
 		o2 := observe(cs, ts, c2, 6)
 		js2 := map[string]any{"cfg": cs, "target": ts, "caller": cl, "caller2": c2, "changed": changed}
 		c.Oracle()
-		if deterministic && len(o2.BuildEnvs) == 1 && !sameMap(o.BuildEnvs[0], o2.BuildEnvs[0]) {
+		if deterministic && len(o2.BuildEnvs) == 1 && !crossRef(ts) && !sameMap(o.BuildEnvs[0], o2.BuildEnvs[0]) {
 			c.Fail("unlisted-caller-variable-visible", fmt.Sprintf("changing only unlisted caller variables %v changes the build environment: %v vs %v",
 				changed, diffMaps(o.BuildEnvs[0], o2.BuildEnvs[0]), diffMaps(o2.BuildEnvs[0], o.BuildEnvs[0])), js2)
 		}
@@ -802,7 +809,10 @@ func runE2E(r *lib.Rng, base string, idx int, steps int, plzDir string) *e2eHist
 	nt := r.Range(2, 3)
 	for i := 0; i < nt; i++ {
 		t := &e2e.C10Target{Name: fmt.Sprintf("t%d", i)}
-		if i == 0 || r.Chance(1, 2) {
+		if i == 0 {
+			t.HasPass = true
+			t.PassEnv = append([]string{"T_A", "T_B"}, subset(r, []string{"T_A", "CFG_U", "USER"}, 1)...)
+		} else if r.Chance(1, 2) {
 			t.HasPass = true
 			t.PassEnv = subset(r, []string{"T_A", "T_B", "T_A", "CFG_U", "USER"}, 3)
 		}
@@ -860,7 +870,14 @@ func runE2E(r *lib.Rng, base string, idx int, steps int, plzDir string) *e2eHist
 				expect[l] = true
 			}
 		} else {
-			kind = lib.Pick(r, []string{"unlisted", "unlisted", "unsafe", "target-pass", "target-pass", "cfg-pass", "cfg-pass", "clean", "collision"})
+			kinds := []string{"unlisted", "unlisted", "target-pass", "target-pass", "clean", "collision"}
+			if len(spec.PassEnv) > 0 {
+				kinds = append(kinds, "cfg-pass", "cfg-pass")
+			}
+			if len(spec.PassUnsafeEnv) > 0 {
+				kinds = append(kinds, "unsafe", "unsafe")
+			}
+			kind = lib.Pick(r, kinds)
 			switch kind {
 			case "unlisted", "clean":
 				// variables listed nowhere in this repository
@@ -956,7 +973,8 @@ func runE2E(r *lib.Rng, base string, idx int, steps int, plzDir string) *e2eHist
 					t := token()
 					tokenOwner[t] = b
 					cl[a], cl[b] = "", b+"="+t
-					repo.C10Build(spec, copyMap(cl))
+					half := repo.C10Build(spec, copyMap(cl))
+					prev = half.Dumps
 					cl[a], cl[b] = b+"=", t
 					changedVar = a + "," + b
 					for _, t2 := range spec.Targets {
@@ -1045,7 +1063,15 @@ func runE2E(r *lib.Rng, base string, idx int, steps int, plzDir string) *e2eHist
 			// clean rebuild under different unlisted variables: byte-identical dump (temp dir path is the same)
 			if kind == "clean" {
 				h.Orcl++
-				if normDump(prev[l]) != normDump(d) {
+				// listed variables may legitimately be stale in the old output (unsafe ones by design) and are checked above
+				skip := map[string]bool{}
+				for v := range lst {
+					skip[v] = true
+				}
+				for k := range t.Env {
+					skip[k] = true
+				}
+				if normDump(prev[l], skip) != normDump(d, skip) {
 					fail("unlisted-caller-variable-changes-output", fmt.Sprintf("%s rebuilt from scratch under different unlisted variables gives a different environment: %s", l, diffMaps(d.Vars, prev[l].Vars)))
 				}
 			}
@@ -1083,10 +1109,10 @@ func withDumps(js map[string]any, st e2e.C10Step, prev map[string]e2e.C10Dump) m
 // variables bash itself maintains, and the stamp (a function of the hashes, covered by C08)
 var shellVars = map[string]bool{"PWD": true, "SHLVL": true, "_": true, "OLDPWD": true, "RULE_HASH": true}
 
-func normDump(d e2e.C10Dump) string {
+func normDump(d e2e.C10Dump, skip map[string]bool) string {
 	parts := []string{}
 	for _, k := range lib.SortedKeys(d.Vars) {
-		if !shellVars[k] {
+		if !shellVars[k] && !skip[k] {
 			parts = append(parts, k+"="+d.Vars[k])
 		}
 	}
